@@ -20,7 +20,7 @@ pub const ENTRY: Entry = Entry {
     variants: &["batch"],
     level: "model_checking",
     rule: "TestImage drawn (a) on a clipping framebuffer target that implements only draw_iter and records every pixel and every \
-           out-of-bounds attempt: all sizes 0..=48 squared (thorough 0..=96) plus strips up to 65535, for Rgb565/Rgb666/Rgb888; (b) \
+           out-of-bounds attempt: all sizes 0..=96 squared (thorough 0..=200) plus strips up to 65535, for Rgb565/Rgb666/Rgb888; (b) \
            through the real Display for windows 32x32..40x35 of a 40x35 framebuffer in all 8 orientations and for built-in 128x160 and \
            240x320 panels, decoded by the reference controller and compared with (a). Oracle: never panics; for >= 32x32: every pixel \
            painted, outermost rows/columns pure white and the ring inside it not white, every interior row filtered to pure R/G/B \
@@ -245,7 +245,7 @@ fn check_display(ctx: &Ctx, acc: &mut Acc, cfg: &Cfg) {
 fn run(ctx: &Ctx) -> Part {
     let t0 = Instant::now();
     let quick = ctx.quick();
-    let max = if quick { 48 } else { 96 };
+    let max = if quick { 96 } else { 200 };
     let mut sizes: Vec<(u32, u32)> = (0..=max).flat_map(|w| (0..=max).map(move |h| (w, h))).collect();
     for w in [32u32, 33, 65535] {
         for h in [32u32, 65535] {
